@@ -99,7 +99,9 @@ const CAP: u64 = 600_000;
 fn c11_case(c: &EngCase, st: &mut Stats, dense: u64) -> Result<(), String> {
     let Some(s) = setup(c, 32, st)? else { return Ok(()) };
     let fen = s.pos.fen();
-    let prof = profile(&s.board, &s.tf, CAP, 3, false).map_err(|e| format!("C11 {}", search_err(e, &fen, CAP)))?;
+    // the property holds for either engine configuration: positional evaluation on for half the cases
+    let positional = c.play.aux & 1 == 1;
+    let prof = profile(&s.board, &s.tf, CAP, 3, positional).map_err(|e| format!("C11 {}", search_err(e, &fen, CAP)))?;
     let starts = &prof.starts;
     let s1 = starts.get(1).copied();
     // limits: every k up to min(s_2, dense); around every boundary; generated values up to the total
@@ -121,7 +123,7 @@ fn c11_case(c: &EngCase, st: &mut Stats, dense: u64) -> Result<(), String> {
     ks.dedup();
     let mut first_some: Option<u64> = None;
     for &k in &ks {
-        let ((mv, _score), _depth, _polls, expired) = run_search(&s.board, &s.tf, k, false).map_err(|e| format!("C11 {}", search_err(e, &fen, k)))?;
+        let ((mv, _score), _depth, _polls, expired) = run_search(&s.board, &s.tf, k, positional).map_err(|e| format!("C11 {}", search_err(e, &fen, k)))?;
         match mv {
             Some(m) => {
                 let m = from_cm(m);
@@ -156,7 +158,7 @@ fn c11_case(c: &EngCase, st: &mut Stats, dense: u64) -> Result<(), String> {
         // the same expiry instant with logging switched on (INFO + DEBUG events formatted, as
         // `chess-cli -v` does): same result, and in particular no panic
         if k <= 48 || starts.iter().any(|b| k + 3 >= *b && k <= *b + 3) || k >= total {
-            let ((mv2, _), _, _, _) = run_search_loud(&s.board, &s.tf, k, false).map_err(|e| format!("C11 [logging enabled] {}", search_err(e, &fen, k)))?;
+            let ((mv2, _), _, _, _) = run_search_loud(&s.board, &s.tf, k, positional).map_err(|e| format!("C11 [logging enabled] {}", search_err(e, &fen, k)))?;
             if mv2 != mv {
                 return Err(format!("C11 search of `{fen}` with the limit expiring at poll {k} returns {:?} with logging enabled but {:?} without", mv2.map(|m| from_cm(m).to_string()), mv.map(|m| from_cm(m).to_string())));
             }
@@ -185,6 +187,9 @@ fn c11_case(c: &EngCase, st: &mut Stats, dense: u64) -> Result<(), String> {
     }
     if c.history {
         st.class("with pre-filled repetition history");
+    }
+    if positional {
+        st.class("positional evaluation on");
     }
     if st.want_sample() {
         st.sample(json!({"fen": fen, "pass_starts": starts, "limits_tried": ks.len(), "unlimited_result": prof.result.0.map(|m| from_cm(m).to_string())}));
